@@ -431,6 +431,8 @@ struct Gen {
 		GSig *bp = &pickCompat(join(domainOf(c), domainOf(a)));
 		for (int t = 0; t < 20 && bp == &a; t++) bp = &pickCompat(join(domainOf(c), domainOf(a)));
 		if (bp == &a) bp = &newInput(pickClockFor(join(domainOf(c), domainOf(a))));
+		// two constant data inputs may carry the same value (mux(c; 6, 6) is 6: post-processing folds it and the selector influences nothing)
+		if (a.labels.empty() && bp->labels.empty()) bp = &newInput(pickClockFor(domainOf(c)));
 		GSig &b = *bp;
 		std::set<int> l = a.labels; l.insert(b.labels.begin(), b.labels.end()); l.insert(c.labels.begin(), c.labels.end());
 		meet({ &c.labels, &a.labels, &b.labels });
